@@ -1,6 +1,52 @@
 """Determinism group: C18 (results are deterministic and independent of thread scheduling)."""
 
 
+def _corrupt(ev, pred, change, expect):
+    """selftest: corrupts the first record matching pred"""
+    for i, e in enumerate(ev):
+        if pred(e):
+            if change(e, ev) is False:
+                continue
+            return ev, i, expect
+    return None
+
+
+def _set_elem(j, k, v):
+    def f(e, ev):
+        e["elems"][j][k] = v
+    return f
+
+
+def _untouch_first(e, ev):
+    solo = next(x for x in ev if x.get("case") == e["case"] and x.get("ev") == "Solo" and x["j"] == 1)
+    e["elems"][0][0] = solo["dinit"]
+
+
+def _okpar(e):
+    return e.get("ev") == "Batch" and e.get("ok") and e.get("how") == "par" and e.get("len", 0) >= 2
+
+
+def _errpar(e):
+    return e.get("ev") == "Batch" and not e.get("ok") and e.get("how") == "par" and e.get("len", 0) >= 2
+
+
+CORRUPT = {
+    "second_process_digest": lambda ev: _corrupt(ev, lambda e: e.get("ev") == "Run" and e.get("how") == "proc2",
+                                                 lambda e, _: e.update(d=[1, 2]), ["SingleAssignment"]),
+    "repeat_outcome": lambda ev: _corrupt(ev, lambda e: e.get("ev") == "Run" and e.get("how") == "inproc2",
+                                          lambda e, _: e.update(ok=not e["ok"]), ["SingleAssignment"]),
+    "element_result": lambda ev: _corrupt(ev, _okpar, _set_elem(0, 0, [1, 2]), ["ElemSerial"]),
+    "element_input": lambda ev: _corrupt(ev, _okpar, _set_elem(1, 1, [1, 2]), ["InputsUntouched"]),
+    "element_not_walked": lambda ev: _corrupt(ev, _okpar, _untouch_first, ["AllWalked"]),
+    "batch_digest": lambda ev: _corrupt(ev, _okpar, lambda e, _: e.update(d=[1, 2]), ["ParallelEqualsSerial"]),
+    "error_for_wrong_element": lambda ev: _corrupt(ev, _errpar, lambda e, _: e.update(err_idx=(e["err_idx"] % e["len"]) + 1),
+                                                   ["ErrIsolated"]),
+    "error_swallowed": lambda ev: _corrupt(ev, _errpar, lambda e, _: e.update(ok=True), ["ErrIsolated"]),
+    "other_element_corrupted_on_error": lambda ev: _corrupt(
+        ev, _errpar, lambda e, _: e["elems"][e["err_idx"] % e["len"]].__setitem__(0, [1, 2]), ["ErrIsolated", "ElemSerial"]),
+}
+
+
 def nontrivial(d):
     # a batch with at least two elements, or any whole-pipeline input
     return d.get("kind") != "batch" or d.get("n", 0) >= 2
@@ -35,7 +81,7 @@ GROUP = dict(
                      dict(cfg="MCDeterminism_n5w3.cfg", emit=True, workers=8, timeout=600),
                      dict(cfg="MCDeterminism_n6w4.cfg", emit=False, workers=8, timeout=1800)],
     },
-    gen_n={"quick": 60, "thorough": 400},
+    gen_n={"quick": 200, "thorough": 4000},
     per_case_ms=120000,
     harness_timeout={"quick": 600, "thorough": 3000},
     nontrivial=nontrivial,
@@ -46,7 +92,14 @@ GROUP = dict(
                     assumptions=ASSUME, level="exploration", exhaustive=False),
     },
     sigs={},
-    vacuity=lambda r: ("no second-process run was recorded" if r["stats"].get("runs_proc2", 0) == 0 else
+    # Level-B variants of the batch walker that break isolation: TLC must find the interleaving
+    fault_models=[dict(cfg="MCDeterminism_fault_shared.cfg", expect=["InputsUntouched", "ElemSerial", "ErrIsolated", "SingleAssignment"]),
+                  dict(cfg="MCDeterminism_fault_shifted.cfg", expect=["ElemSerial", "AllWalked", "ErrIsolated"]),
+                  dict(cfg="MCDeterminism_fault_abortall.cfg", expect=["ErrIsolated", "ElemSerial", "SingleAssignment"])],
+    selftest_cases=20,
+    corrupt=CORRUPT,
+    # (a --replay run has no model part and a single case: nothing to complain about)
+    vacuity=lambda r: None if not r["models"] else ("no second-process run was recorded" if r["stats"].get("runs_proc2", 0) == 0 else
                        "no parallel batch walk was recorded" if r["stats"].get("batches_par", 0) == 0 else
                        "no batch with a failing element was recorded" if r["stats"].get("batches_err", 0) == 0 else
                        "no batch without a failing element was recorded"
